@@ -138,6 +138,9 @@ pub enum Via {
     FromRead,
     Boxed,
     BufReader { cap: usize },
+    /// `from_read`, then the junk prefix is consumed through the `DeferredReader` itself
+    /// (request/advance) before it is wrapped: the parser starts on an already advanced reader.
+    Advanced,
 }
 
 /// How the parser is constructed.
@@ -161,7 +164,7 @@ impl Ctor {
         matches!(
             self,
             Ctor::Reader {
-                via: Via::BufReader { .. },
+                via: Via::BufReader { .. } | Via::Advanced,
                 ..
             } | Ctor::ParserBufReader { .. }
         )
@@ -174,6 +177,7 @@ impl Ctor {
                     Via::FromRead => "read".to_string(),
                     Via::Boxed => "boxed".to_string(),
                     Via::BufReader { cap } => format!("buf{cap}"),
+                    Via::Advanced => "adv".to_string(),
                 },
                 chunk.map_or("-".to_string(), |c| c.to_string())
             ),
@@ -188,6 +192,7 @@ impl Ctor {
             Some(match v {
                 "read" => Via::FromRead,
                 "boxed" => Via::Boxed,
+                "adv" => Via::Advanced,
                 b => Via::BufReader {
                     cap: b.strip_prefix("buf")?.parse().ok()?,
                 },
@@ -205,6 +210,7 @@ impl Ctor {
                 Via::FromRead => Ctor::ParserFromRead,
                 Via::Boxed => Ctor::ParserBoxed,
                 Via::BufReader { cap } => Ctor::ParserBufReader { cap },
+                Via::Advanced => return None,
             }),
             _ => None,
         }
@@ -278,7 +284,7 @@ fn make_bufreader<R: Read>(src: R, cap: usize, pre: usize) -> BufReader<R> {
     let mut br = BufReader::with_capacity(cap.max(1), src);
     let mut left = pre;
     let mut guard = 0;
-    while left > 0 && guard < 100_000 {
+    while left > 0 && guard < 10_000_000 {
         guard += 1;
         match br.fill_buf() {
             Ok(b) if b.is_empty() => break,
@@ -298,9 +304,23 @@ fn make_reader<'a, R: Read + 'a>(via: &Via, chunk: &Option<usize>, src: R, pre: 
         Via::FromRead => DeferredReader::from_read(src),
         Via::Boxed => DeferredReader::from_boxed_dyn_read(Box::new(src)),
         Via::BufReader { cap } => DeferredReader::from_buf_reader(make_bufreader(src, *cap, pre)),
+        Via::Advanced => DeferredReader::from_read(src),
     };
     if let Some(c) = chunk {
         r.set_chunk_size((*c).max(1));
+    }
+    if matches!(via, Via::Advanced) {
+        // the caller read a prefix of the stream through the reader before handing it to the
+        // parser (a container format, a magic number, ...)
+        let mut left = pre;
+        while left > 0 {
+            let n = r.request(left.min(7)).len().min(left);
+            if n == 0 {
+                break;
+            }
+            r.advance(n);
+            left -= n;
+        }
     }
     r
 }
